@@ -163,7 +163,7 @@ def _pow_int(key):
 
 def _unary(key):
     _, st, un = key
-    ts = _cls(st).structure_for((2, 2), f64)
+    ts = _cls(st).structure_for((2, 1, 2), f64)
     ctx = E.Ctx()
     dec = Decider()
     t = E.symbols('t', ts)
